@@ -27,9 +27,11 @@ NP == 4
 Kind == <<"f", "f", "i", "i">>
 States == 1..4
 
-VARIABLES cur, ticks, paused, ov, vals, tls, hist, obs, rng, blk
+VARIABLES cur, ticks, paused, ov, vals, tls, hist, obs, rng, blk,
+          dom      \* the block lies in C04's domain (distinct keyframe positions per property); outside it the
+                   \* macro is still compared with the builder twin, but the model's predictions are not used
 INSTANCE Animator
-vars == <<cur, ticks, paused, ov, vals, tls, hist, obs, rng, blk>>
+vars == <<cur, ticks, paused, ov, vals, tls, hist, obs, rng, blk, dom>>
 
 LCG(r) == ((r * 1103) + 12345) % 65521
 Pick(s, r) == s[(r % Len(s)) + 1]
@@ -49,7 +51,7 @@ Arg(r) ==
   ELSE IF c = 2 THEN [k |-> "del", t |-> Pick(DelT, r2), form |-> Pick(<<"s", "ms">>, r3)]
   ELSE IF c = 3 THEN [k |-> "rep", n |-> IF (r2 % 3) = 0 THEN -2 ELSE (r2 % 3) + 1]
   ELSE IF c = 4 THEN (IF (r2 % 2) = 0 THEN [k |-> "rev"] ELSE [k |-> "ease", e |-> Pick(Eases, r3)])
-  ELSE LET form == IF (r2 % 3) = 0 THEN "from" ELSE "pct"      \* (`to` is the closing keyframe of every sentence)
+  ELSE LET form == IF (r2 % 3) = 0 THEN "from" ELSE IF (r2 % 11) = 5 THEN "to" ELSE "pct"   \* (`to` also closes every sentence)
            pos == IF form = "from" THEN 0 ELSE IF form = "to" THEN PD ELSE Pick(Positions, r3)
            m == r3 % 6
        IN [k |-> "kf", pos |-> pos, form |-> form, dflt |-> (m = 0),
@@ -77,10 +79,10 @@ Arms(r, n) == IF n = 0 THEN <<>> ELSE <<Arm(r)>> \o Arms(LCG(LCG(LCG(LCG(LCG(r))
 
 Block(r) ==
   LET r1 == LCG(r)  r2 == LCG(r1)  r3 == LCG(r2)
-      form == Pick(<<"none", "state", "inline", "inline", "expr">>, r1)
+      form == Pick(<<"none", "state", "inline", "inline", "expr", "exprbase">>, r1)
       m == r3 % 5 IN
   [def |-> [form |-> form, st |-> IF form = "none" THEN 1 ELSE (r2 % 4) + 1,
-            vals |-> IF form = "expr" THEN << <<Pick(ValX, r2)>>, <<Pick(ValX, r3) + 2>>, <<Pick(ValN, r2)>>, <<Pick(ValN, r3)>> >>
+            vals |-> IF form = "expr" \/ form = "exprbase" THEN << <<Pick(ValX, r2)>>, <<Pick(ValX, r3) + 2>>, <<Pick(ValN, r2)>>, <<Pick(ValN, r3)>> >>
                      ELSE IF form = "inline" THEN << IF m # 0 THEN <<Pick(ValX, r2)>> ELSE <<>>, IF m = 2 THEN <<5>> ELSE <<>>,
                                                      IF m > 2 THEN <<Pick(ValN, r3)>> ELSE <<>>, IF m = 4 THEN <<11>> ELSE <<>> >>
                      ELSE << <<>>, <<>>, <<>>, <<>> >>],
@@ -118,7 +120,7 @@ Op(o) == /\ IF o.op = "adv" THEN Advance(o.dt) ELSE SetState(o.st)
 DTs == <<0, 1, 2, 3, 5, 8, 16>>
 Init == /\ \E i \in 1..NBlocks :
              LET r == ((((Seed * 7919) + (i * 104729)) % 65521) + 1)  b == Block(r) IN
-             /\ InDomain(b)
+             /\ dom = InDomain(b)
              /\ blk = b /\ rng = LCG(r + 17)
              /\ AInit(ReadTls(b), b.def.st, [p \in 1..NP |-> I0(V0(b)[p])])
         /\ hist = <<>> /\ obs = <<>>
@@ -126,7 +128,7 @@ Next == /\ Len(hist) < Depth
         /\ LET r1 == LCG(rng)  r2 == LCG(r1) IN
            /\ Op(IF (r1 % 5) < 3 THEN [op |-> "adv", dt |-> Pick(DTs, r2)] ELSE [op |-> "set", st |-> (r2 % 4) + 1])
            /\ rng' = r2
-        /\ blk' = blk
+        /\ blk' = blk /\ dom' = dom
 Spec == Init /\ [][Next]_vars
 
 \* states not mentioned in any arm have no timeline; `A | B` installs the same timeline for both
@@ -137,7 +139,10 @@ ReadingFacts ==
              blk.arms[m].sts[n] # blk.arms[i].sts[j] /\ blk.arms[m].sts[n] # blk.arms[i].sts[k])
         => tls[blk.arms[i].sts[j]] = tls[blk.arms[i].sts[k]]
 
+\* the animator properties on every Reading that lies in the domain
+DomConsistent == dom => Consistent
+DomNoJump == [][dom => (cur' # cur => vals' = vals)]_vars
 Emit == Len(hist) = Depth =>
-  PrintT(<<"REPLAY", ToJson([kind |-> "block", pd |-> PD, np |-> NP, block |-> blk, tls |-> tls, s0 |-> blk.def.st, v0 |-> V0(blk),
+  PrintT(<<"REPLAY", ToJson([kind |-> "block", pd |-> PD, np |-> NP, indomain |-> dom, block |-> blk, tls |-> tls, s0 |-> blk.def.st, v0 |-> V0(blk),
                              ops |-> hist, obs |-> obs])>>)
 =============================================================================
